@@ -282,6 +282,7 @@ structure Forest where
   nextId : Nat
   aliased : Bool := false       -- set when a step had to put one node object in two places
   pool : List Tree := []        -- node objects moved during the current call (still addressable)
+  consumed : Bool := false      -- the value being replaced (`pending`) has been moved into the new value
   deriving Repr, Inhabited
 
 namespace Forest
@@ -345,11 +346,11 @@ def relocateRef (cfg : Cfg) (f : Forest) (pending : Option Nat) (par : Option Na
     | none => (f, .leaf .none)
   | some (.leaf a) => (f, .leaf a)
   | some (.node m its) =>
-    if pending == some id then
+    if pending == some id && !f.consumed then
       -- the value being replaced by this very call: the dict has detached it (parent None, path
       -- root) before it formalizes the new value, so it is moved; it leaves its slot when the
-      -- new value is stored
-      ({ f with pool := f.pool ++ [.node m its] },
+      -- new value is stored (offered a second time it has a parent and is copied)
+      ({ f with pool := f.pool ++ [.node m its], consumed := true },
        ((((Tree.node m its).setParent none).setPath []).setPath p).setParent par)
     else if m.parent.isNone || (!holderObj && m.parent == par && m.path == p) then
       let t := ((Tree.node m its).setPath p).setParent par
